@@ -71,6 +71,21 @@ func main() {
 			n++
 		}
 	}
+	// test-only constructors (files ADDED to the packages by the overlay; nothing is written under the repository)
+	for _, pkg := range []string{"protectedmemory", "memguard"} {
+		dir := filepath.Join(*repo, "go/securememory", pkg)
+		if _, err := os.Stat(dir); err != nil {
+			continue
+		}
+		dst := filepath.Join(*out, "securememory_"+pkg+"__zz_verif_export.go")
+		src := "//go:build verif\n\npackage " + pkg + "\n\nimport \"github.com/godaddy/asherah/go/securememory/internal/memcall\"\n\n" +
+			"// VerifNewSecretFactory returns a SecretFactory whose memory primitives are mc (verification builds only).\n" +
+			"func VerifNewSecretFactory(mc memcall.Interface) *SecretFactory { return &SecretFactory{mc: mc} }\n"
+		if err := os.WriteFile(dst, []byte(src), 0o644); err != nil {
+			fail(err)
+		}
+		replace[filepath.Join(dir, "zz_verif_export.go")] = dst
+	}
 	ov, _ := json.MarshalIndent(map[string]interface{}{"Replace": replace}, "", " ")
 	p := filepath.Join(*out, "overlay.json")
 	if err := os.WriteFile(p, ov, 0o644); err != nil {
